@@ -1238,9 +1238,10 @@ impl<const MIN_ALIGN: usize> Bump<MIN_ALIGN> {
                         // only allocation in this chunk.
                         //
                         // Because this is the only allocation in this chunk,
-                        // we can reset the chunk's bump finger to the start of
-                        // the chunk.
-                        current_ptr.set(current_footer_p.as_ref().data);
+                        // we can reset the chunk's bump finger to the end of
+                        // the chunk's bump region, i.e. its footer (we bump
+                        // downwards, so that is the "empty" position).
+                        current_ptr.set(current_footer_p.cast());
                     }
                 }
                 //SAFETY:
@@ -1346,9 +1347,10 @@ impl<const MIN_ALIGN: usize> Bump<MIN_ALIGN> {
                         // only allocation in this chunk.
                         //
                         // Because this is the only allocation in this chunk,
-                        // we can reset the chunk's bump finger to the start of
-                        // the chunk.
-                        current_ptr.set(current_footer_p.as_ref().data);
+                        // we can reset the chunk's bump finger to the end of
+                        // the chunk's bump region, i.e. its footer (we bump
+                        // downwards, so that is the "empty" position).
+                        current_ptr.set(current_footer_p.cast());
                     }
                 }
                 //SAFETY:
